@@ -86,12 +86,13 @@ unsafe impl<T> Trace for Lazy<T> {
 
 #[cfg(gluon_verif)]
 impl<T> Lazy<T> {
-    /// `(state, stored value)`: 0 = thunk, 1 = blackhole, 2 = value
+    /// `(state, stored value)`: 0 = thunk, 1 = blackhole, 2 = value, 3 = failed
     pub fn verif_with_state<R>(&self, f: impl FnOnce(u8, Option<crate::Variants>) -> R) -> R {
         match &*self.value.lock().unwrap() {
             Lazy_::Thunk(value) => f(0, Some(crate::Variants::new(value))),
             Lazy_::Blackhole(..) => f(1, None),
             Lazy_::Value(value) => f(2, Some(crate::Variants::new(value))),
+            Lazy_::Failed(..) => f(3, None),
         }
     }
 
